@@ -421,6 +421,137 @@ fn check_multipart() -> bool {
     true
 }
 
+// ---------------------------------------------------------------- buffering extractors end to end (C12)
+mod ext {
+    use actix_web::{dev::Payload, error::PayloadError, http::StatusCode, test, web, App, HttpResponse};
+    use futures_util::stream;
+
+    pub const LIMIT: usize = 8;
+
+    fn compositions(n: usize, parts: usize) -> Vec<Vec<usize>> {
+        // all ways to cut n bytes into at most `parts` non-empty pieces (plus the whole)
+        if n == 0 { return vec![vec![]]; }
+        let mut out = vec![vec![n]];
+        if parts > 1 { for first in 1..n { for rest in compositions(n - first, parts - 1) { let mut v = vec![first]; v.extend(rest); out.push(v); } } }
+        out.sort(); out.dedup();
+        out
+    }
+
+    pub async fn check() -> Result<usize, String> {
+        let app = test::init_service(
+            App::new()
+                .app_data(web::PayloadConfig::new(LIMIT))
+                .app_data(web::JsonConfig::default().limit(LIMIT))
+                .app_data(web::FormConfig::default().limit(LIMIT))
+                .route("/bytes", web::post().to(|b: web::Bytes| async move { HttpResponse::Ok().body(b.len().to_string()) }))
+                .route("/string", web::post().to(|b: String| async move { HttpResponse::Ok().body(b.len().to_string()) }))
+                .route("/json", web::post().to(|b: web::Json<String>| async move { HttpResponse::Ok().body((b.0.len() + 2).to_string()) }))
+                .route("/form", web::post().to(|b: web::Form<std::collections::HashMap<String, String>>| async move { HttpResponse::Ok().body((b.0.get("a").map(|v| v.len()).unwrap_or(0) + 2).to_string()) })),
+        ).await;
+        let mut n = 0usize;
+        for (path, ctype) in [("/bytes", "application/octet-stream"), ("/string", "text/plain"), ("/json", "application/json"), ("/form", "application/x-www-form-urlencoded")] {
+            for len in 0..=LIMIT + 4 {
+                let body: Vec<u8> = match path {
+                    "/json" => { if len < 2 { continue; } let mut v = vec![b'"']; v.extend(std::iter::repeat(b'x').take(len - 2)); v.push(b'"'); v }
+                    "/form" => { if len < 2 { continue; } let mut v = b"a=".to_vec(); v.extend(std::iter::repeat(b'x').take(len - 2)); v }
+                    _ => vec![b'x'; len],
+                };
+                for comp in compositions(len, 3) {
+                    for declare_length in [true, false] {
+                        n += 1;
+                        let mut rq = test::TestRequest::post().uri(path).insert_header(("content-type", ctype));
+                        if declare_length { rq = rq.insert_header(("content-length", len.to_string())); }
+                        let req = rq.to_request();
+                        let mut pieces: Vec<Result<web::Bytes, PayloadError>> = Vec::new();
+                        let mut at = 0;
+                        for c in &comp { pieces.push(Ok(web::Bytes::copy_from_slice(&body[at..at + c]))); at += c; }
+                        let boxed: std::pin::Pin<Box<dyn futures_core::Stream<Item = Result<web::Bytes, PayloadError>>>> = Box::pin(stream::iter(pieces));
+                        let (req, _) = req.replace_payload(Payload::Stream { payload: boxed });
+                        let res = test::call_service(&app, req).await;
+                        let status = res.status();
+                        let text = test::read_body(res).await;
+                        let ok = if len <= LIMIT { status == StatusCode::OK && text == len.to_string().as_bytes() } else { status == StatusCode::PAYLOAD_TOO_LARGE };
+                        if !ok {
+                            return Err(format!("input=({} body of {} bytes in pieces {:?}, content-length {}) expected={} got=(status {}, body {:?})", path, len, comp,
+                                if declare_length { "declared" } else { "absent" }, if len <= LIMIT { format!("200 with {}", len) } else { "413".to_owned() }, status.as_u16(), String::from_utf8_lossy(&text)));
+                        }
+                    }
+                }
+            }
+        }
+        Ok(n)
+    }
+}
+
+// ---------------------------------------------------------------- response compression end to end (C13)
+mod comp {
+    use std::io::Read;
+    use actix_web::{http::{header, StatusCode}, middleware::Compress, test, web, App, HttpRequest, HttpResponse};
+    use futures_util::stream;
+
+    fn body_of(len: usize) -> Vec<u8> { (0..len).map(|i| b"abcdefghij"[(i * 7 + i / 10) % 10]).collect() }
+
+    pub async fn check() -> Result<usize, String> {
+        // /s/{len}/{chunk}: a streamed body of `len` bytes in chunks of `chunk` bytes (0 = one sized body); /e: already encoded; /p: 206
+        let app = test::init_service(
+            App::new()
+                .wrap(Compress::default())
+                .route("/s/{len}/{chunk}", web::get().to(|req: HttpRequest| async move {
+                    let len: usize = req.match_info().get("len").unwrap().parse().unwrap();
+                    let chunk: usize = req.match_info().get("chunk").unwrap().parse().unwrap();
+                    let body = body_of(len);
+                    if chunk == 0 { HttpResponse::Ok().body(body) } else {
+                        let pieces: Vec<Result<web::Bytes, std::io::Error>> = body.chunks(chunk).map(|c| Ok(web::Bytes::copy_from_slice(c))).collect();
+                        HttpResponse::Ok().streaming(stream::iter(pieces))
+                    }
+                }))
+                .route("/e", web::get().to(|| async { HttpResponse::Ok().insert_header((header::CONTENT_ENCODING, "x-custom")).body(body_of(3000)) }))
+                .route("/p", web::get().to(|| async { HttpResponse::PartialContent().body(body_of(3000)) }))
+                .route("/n", web::get().to(|| async { HttpResponse::NoContent().finish() })),
+        ).await;
+        let mut n = 0usize;
+        let accepts = ["gzip", "deflate", "identity", "gzip;q=0.5, deflate", "*", "gzip;q=0, *", "br;q=0, gzip"];
+        for len in [0usize, 1, 100, 1023, 1024, 1025, 2047, 2048, 2049, 5000] {
+            for chunk in [0usize, 1, 7, 1024, 4096] {
+                if chunk == 1 && len > 1100 { continue; }
+                for ae in accepts {
+                    n += 1;
+                    let req = test::TestRequest::get().uri(&format!("/s/{}/{}", len, chunk)).insert_header((header::ACCEPT_ENCODING, ae)).to_request();
+                    let res = test::call_service(&app, req).await;
+                    if res.status() != StatusCode::OK { return Err(format!("input=(len {} chunk {} accept-encoding {:?}) expected=200 got={}", len, chunk, ae, res.status())); }
+                    let coding = res.headers().get(header::CONTENT_ENCODING).map(|v| v.to_str().unwrap().to_owned());
+                    let declared = res.headers().get(header::CONTENT_LENGTH).map(|v| v.to_str().unwrap().parse::<usize>().unwrap());
+                    let raw = test::read_body(res).await;
+                    if let Some(d) = declared { if d != raw.len() { return Err(format!("input=(len {} chunk {} accept-encoding {:?}) expected=content-length equal to the body sent got=(content-length {}, {} bytes)", len, chunk, ae, d, raw.len())); } }
+                    let decoded: Vec<u8> = match coding.as_deref() {
+                        None | Some("identity") => raw.to_vec(),
+                        Some("gzip") => { let mut v = Vec::new(); flate2::read::GzDecoder::new(&raw[..]).read_to_end(&mut v).map_err(|e| format!("input=(len {} chunk {} accept-encoding {:?}) expected=a complete gzip stream got={}", len, chunk, ae, e))?; v }
+                        Some("deflate") => { let mut v = Vec::new(); flate2::read::ZlibDecoder::new(&raw[..]).read_to_end(&mut v).map_err(|e| format!("input=(len {} chunk {} accept-encoding {:?}) expected=a complete deflate stream got={}", len, chunk, ae, e))?; v }
+                        Some(other) => return Err(format!("input=(len {} chunk {} accept-encoding {:?}) expected=a known coding got={}", len, chunk, ae, other)),
+                    };
+                    if decoded != body_of(len) { return Err(format!("input=(len {} chunk {} accept-encoding {:?}) expected=the handler's {} bytes after decoding {:?} got={} bytes", len, chunk, ae, len, coding, decoded.len())); }
+                    // the coding must be one the field permits
+                    let refused_gzip = ae.contains("gzip;q=0");
+                    if coding.as_deref() == Some("gzip") && (refused_gzip || ae == "deflate" || ae == "identity") { return Err(format!("input=(accept-encoding {:?}) expected=a permitted coding got=gzip", ae)); }
+                    if coding.as_deref() == Some("deflate") && (ae == "gzip" || ae == "identity" || ae == "br;q=0, gzip") { return Err(format!("input=(accept-encoding {:?}) expected=a permitted coding got=deflate", ae)); }
+                }
+            }
+        }
+        // responses that must not be re-encoded pass through unchanged
+        for (uri, status, len) in [("/e", StatusCode::OK, 3000usize), ("/p", StatusCode::PARTIAL_CONTENT, 3000), ("/n", StatusCode::NO_CONTENT, 0)] {
+            n += 1;
+            let req = test::TestRequest::get().uri(uri).insert_header((header::ACCEPT_ENCODING, "gzip")).to_request();
+            let res = test::call_service(&app, req).await;
+            let coding = res.headers().get(header::CONTENT_ENCODING).map(|v| v.to_str().unwrap().to_owned());
+            let st = res.status();
+            let raw = test::read_body(res).await;
+            let exp_coding = if uri == "/e" { Some("x-custom".to_owned()) } else { None };
+            if st != status || coding != exp_coding || raw.to_vec() != body_of(len) { return Err(format!("input=({} with accept-encoding gzip) expected=(status {}, content-encoding {:?}, the body unchanged) got=(status {}, content-encoding {:?}, {} bytes)", uri, status, exp_coding, st, coding, raw.len())); }
+        }
+        Ok(n)
+    }
+}
+
 fn main() {
     std::panic::set_hook(Box::new(|_| {}));
     let dir = std::env::current_dir().unwrap().join("files");
@@ -432,5 +563,7 @@ fn main() {
     ok &= check_header_map();
     ok &= check_header_parsers_no_panic();
     ok &= actix_web::rt::System::new().block_on(async { check_multipart() });
+    ok &= match actix_web::rt::System::new().block_on(ext::check()) { Ok(n) => { println!("BOUNDED-OK extractor_limits cases={}", n); true } Err(e) => { println!("BOUNDED-FAIL extractor_limits {}", e); false } };
+    ok &= match actix_web::rt::System::new().block_on(comp::check()) { Ok(n) => { println!("BOUNDED-OK compress_end_to_end cases={}", n); true } Err(e) => { println!("BOUNDED-FAIL compress_end_to_end {}", e); false } };
     std::process::exit(if ok { 0 } else { 1 });
 }
